@@ -1,10 +1,13 @@
 /- line-protocol handlers of Algorithm 3 (ctfTR, property C09): the complete conditional procedure
 
      (ctftr cond  <target graph> <domains> <outcomes> <conditions>)
-        -> (ok  <order-sensitive: true|false> <answer>)      answer = (ok <expr> <event>|none) | (fail) | (err …)
+        -> (ok  <order-sensitive: true|false> <in the class of ctfTR_sound_partial: true|false> <answer>)
+           answer = (ok <expr> <event>|none) | (fail) | (err …)
      (ctftr classes <target graph> <domains> <outcomes> <conditions>)
         -> (ok <OutcomesFound> <DstarOneWorld> <OutcomeNotCondition> <popsCoverCheck> <qGoodCheck>)
            the hypotheses of `ctfTR_no_internal_error_partial` that are decidable predicates on the input
+     (ctftr condclass <target graph> <domains> <outcomes> <conditions>)
+        -> (ok <the eight conjuncts of ctfTRInClass, see CtfTr.ctfTRClassFlags>…)      diagnostics only
      (ctftr uncond <target graph> <domains> <event>)
         -> (ok <in the class of ctfTRu_sound_partial: true|false> <answer of ctfTRu>)
      (ctftr line2 <target graph> <outcomes> <conditions>)
@@ -29,7 +32,8 @@ def handleCtfTr (op : String) (args : List Sexp) : Option Sexp := do
       let D ← tr_domainsOf? ds
       let O ← tr_eventOf? o
       let Cn ← tr_eventOf? c
-      pure (tagged "ok" [tr_boolSexp (CtfTr.ctfTROrderSensitive G D O Cn), tr_answerSexp (CtfTr.ctfTR G D O Cn)])
+      pure (tagged "ok" [tr_boolSexp (CtfTr.ctfTROrderSensitive G D O Cn), tr_boolSexp (CtfTr.ctfTRInClass G D O Cn),
+        tr_answerSexp (CtfTr.ctfTR G D O Cn)])
   | "uncond", [g, ds, ev] =>
       let G ← parseGraph g
       let D ← tr_domainsOf? ds
@@ -45,6 +49,12 @@ def handleCtfTr (op : String) (args : List Sexp) : Option Sexp := do
       pure (tagged "ok" [tr_boolSexp (CtfTr.OutcomesFound G O Cn), tr_boolSexp (CtfTr.DstarOneWorld G O Cn),
         tr_boolSexp (CtfTr.OutcomeNotCondition O Cn), tr_boolSexp (CtfTr.popsCoverCheck G D),
         tr_boolSexp (CtfTr.qGoodCheck G D O Cn)])
+  | "condclass", [g, ds, o, c] =>
+      let G ← parseGraph g
+      let D ← tr_domainsOf? ds
+      let O ← tr_eventOf? o
+      let Cn ← tr_eventOf? c
+      pure (tagged "ok" ((CtfTr.ctfTRClassFlags G D O Cn).map tr_boolSexp))
   | _, _ => none
 
 end Y0.Driver
